@@ -508,6 +508,20 @@ def include_rule(c, chk, ex):
                 if not dec:
                     chk.fail('R7.6', 'pop-noptr:%s' % scn, 'src/lexer.l:%d' % lex.dfa.eof_line.get(scn, 0), 'the end-of-file action pops a buffer without decrementing the include stack pointer')
                     return
+    # (a') an end of input that pops nothing leaves the include stack as deep as it was (the end of a default-value text that
+    #      is scanned while an include file is open must not forget that file)
+    from .. import bufsize as _bs
+    for scn, aps in lex.eof_actions.items():
+        for ap in aps:
+            names = [x[1] for x in ap.of('call')]
+            if 'cfg_scan_fp_end' in names:
+                continue
+            net = _bs.net_counter_change(ap.events, ('g', '@cfg_include_stack_ptr'))
+            if net != 0:
+                chk.fail('R7.6', 'eof-depth:%s' % scn, 'src/lexer.l:%d' % lex.dfa.eof_line.get(scn, 0),
+                         'an end-of-input action in <%s> that pops no include level leaves the include stack pointer changed (%s): the include file that was open is forgotten - '
+                         'never closed, its saved name and scanner buffer never released' % (scn, 'by %+d' % net if net is not None else 'to an unknown value'))
+                return
     if npop:
         chk.ok('R7.6', '<<EOF>> pop site', 'decrements the include stack pointer, restores the position, fclose() then cfg_scan_fp_end() on %d action paths' % npop, sample=True)
     chk.floor('R7.6 pop action paths', npop, 1)
@@ -534,6 +548,15 @@ def include_rule(c, chk, ex):
             bad = (p, 'does not pop the scanner source it pushed')
         elif fails is not False and not any(nm in unwinders for nm in called):
             bad = (p, 'returns after a failed parse without unwinding the include stack: files opened by include() stay open and every later include() nests deeper')
+        elif fails is not False:
+            # the unwinding stops at the depth this parse started at: a parse that runs inside another parse's include file
+            # (from a callback) must not close the outer parse's files
+            uw = [e for e in after if e.kind == 'call' and e.name in unwinders]
+            entry = ('ld', ('g', '@cfg_include_stack_ptr'))
+            if uw and not any(sym.norm(a) == entry for e in uw for a in (e.args or [])) and \
+                    not any(e.kind == 'store' and sym.norm(e.val) == entry for e in p.events[:p.events.index(pc[0])]):
+                bad = (p, 'unwinds the include stack after a failed parse without regard to the depth at which this parse started (the unwinder is not given the include '
+                          'stack pointer read before the parse): a parse run from a callback inside an included file closes the include files of the parse around it')
     # the unwinder really unwinds: it returns only once the stack is back at the requested level
     cond = unwinder_conditional(c, unwinders)
     if cond and not bad:
